@@ -135,7 +135,33 @@ func genHist(prop string, seed uint64, tier string) *Scenario {
 			menu = []string{"Sqrt", "Sqrt", "Mul", "Set", "SetPrec"}
 		}
 	}
+	if focus == "" && r.chance(0.04) {
+		// fused multiply-add with an addend that cancels the exact product:
+		// v2 = -(v0*v1) computed exactly, then FMA(z, v0, v1, v2) into short receivers
+		focus = "fma"
+		for nv < 5 {
+			sc.Vars = append(sc.Vars, r.genVar(1, 0, true))
+			nv++
+		}
+		a, b := r.rangeI(1, 6), r.rangeI(1, 6)
+		if r.chance(0.2) {
+			a, b = r.rangeI(8, 40), r.rangeI(8, 40)
+		}
+		mk := func(n int) VarSpec {
+			w := r.genWords(n, r.pick(1, 1, 0, 4))
+			return VarSpec{Form: 1, Words: w, Exp: int32(r.rangeI(-30, 30)), Prec: uint32(n * wordDigits), Mode: uint8(r.intn(6)), Neg: r.chance(0.4)}
+		}
+		sc.Vars[0], sc.Vars[1] = mk(a), mk(b)
+		sc.Vars[2] = VarSpec{Form: 0, Prec: uint32((a + b) * wordDigits), Mode: uint8(r.intn(6))}
+		for i := 3; i < nv; i++ {
+			sc.Vars[i].Prec = uint32(r.pick(1, 2, 5, 19, 20, 21, 38, r.rangeI(1, (a+b)*wordDigits)))
+			sc.Vars[i].Mode = uint8(r.intn(6))
+		}
+	}
 	nanRate := r.pick(0, 0, 5, 15, 30) // percent of arithmetic steps drawn from the invalid table
+	if focus == "fma" {
+		nanRate = 0
+	}
 	n := r.rangeI(3, 14)
 	if tier == "thorough" && r.chance(0.3) {
 		n = r.rangeI(10, 40)
@@ -189,6 +215,25 @@ func genHist(prop string, seed uint64, tier string) *Scenario {
 			}
 		}
 		genParams(r, sc, &op)
+		if focus == "fma" {
+			z := r.rangeI(3, nv-1)
+			switch r.intn(10) {
+			case 0:
+				op = Op{ID: i, Name: "SetMode", Z: z, M: r.intn(6)}
+			case 1:
+				op = Op{ID: i, Name: "SetPrec", Z: z, I: int64(r.pick(1, 2, 7, 19, 20, 34, 57))}
+			default:
+				op = Op{ID: i, Name: "FMA", Z: z, A: []int{0, 1, 2}}
+				if r.chance(0.3) {
+					op.A = []int{1, 0, 2}
+				}
+			}
+			if i == 0 {
+				ts.Ops = append(ts.Ops, Op{ID: 3000, Name: "Mul", Z: 2, A: []int{0, 1}}, Op{ID: 3001, Name: "Neg", Z: 2, A: []int{2}})
+			}
+			ts.Ops = append(ts.Ops, op)
+			continue
+		}
 		ts.Ops = append(ts.Ops, op)
 		if r.chance(0.08) {
 			// fault event: some variable's buffer becomes large and stale
